@@ -34,6 +34,7 @@ pub fn is_annotation(opcode: spirv::Op) -> bool {
             | spirv::Op::DecorationGroup
             | spirv::Op::GroupDecorate
             | spirv::Op::GroupMemberDecorate
+            | spirv::Op::DecorateId
             | spirv::Op::DecorateString
             | spirv::Op::MemberDecorateStringGOOGLE
     )
@@ -66,6 +67,31 @@ pub fn is_type(opcode: spirv::Op) -> bool {
             | spirv::Op::TypeAccelerationStructureKHR
             | spirv::Op::TypeRayQueryKHR
             | spirv::Op::TypeForwardPointer
+            | spirv::Op::TypePipeStorage
+            | spirv::Op::TypeNamedBarrier
+            | spirv::Op::TypeUntypedPointerKHR
+            | spirv::Op::TypeCooperativeMatrixKHR
+            | spirv::Op::TypeNodePayloadArrayAMDX
+            | spirv::Op::TypeHitObjectNV
+            | spirv::Op::TypeCooperativeVectorNV
+            | spirv::Op::TypeCooperativeMatrixNV
+            | spirv::Op::TypeTensorLayoutNV
+            | spirv::Op::TypeTensorViewNV
+            | spirv::Op::TypeVmeImageINTEL
+            | spirv::Op::TypeAvcImePayloadINTEL
+            | spirv::Op::TypeAvcRefPayloadINTEL
+            | spirv::Op::TypeAvcSicPayloadINTEL
+            | spirv::Op::TypeAvcMcePayloadINTEL
+            | spirv::Op::TypeAvcMceResultINTEL
+            | spirv::Op::TypeAvcImeResultINTEL
+            | spirv::Op::TypeAvcImeResultSingleReferenceStreamoutINTEL
+            | spirv::Op::TypeAvcImeResultDualReferenceStreamoutINTEL
+            | spirv::Op::TypeAvcImeSingleReferenceStreaminINTEL
+            | spirv::Op::TypeAvcImeDualReferenceStreaminINTEL
+            | spirv::Op::TypeAvcRefResultINTEL
+            | spirv::Op::TypeAvcSicResultINTEL
+            | spirv::Op::TypeBufferSurfaceINTEL
+            | spirv::Op::TypeStructContinuedINTEL
     )
 }
 
@@ -84,6 +110,8 @@ pub fn is_constant(opcode: spirv::Op) -> bool {
             | spirv::Op::SpecConstant
             | spirv::Op::SpecConstantComposite
             | spirv::Op::SpecConstantOp
+            | spirv::Op::ConstantCompositeReplicateEXT
+            | spirv::Op::SpecConstantCompositeReplicateEXT
             | spirv::Op::ConstantCompositeContinuedINTEL
             | spirv::Op::SpecConstantCompositeContinuedINTEL
     )
